@@ -104,6 +104,7 @@ func cmdVerify(args []string) {
 	fn := fs.String("func", "", "only units whose key contains this")
 	prop := fs.String("prop", "", "only obligations serving this property")
 	verbose := fs.Bool("v", false, "verbose")
+	deep := fs.Bool("deep", false, "also decide the thorough-only vacuity covers (exit reachable)")
 	keep := fs.Bool("keep", false, "keep all query files")
 	timeout := fs.Int("timeout", 10, "solver timeout (s)")
 	all := fs.Bool("all", false, "include functions without contract (safety sweep)")
@@ -173,6 +174,9 @@ func cmdVerify(args []string) {
 		}
 		for _, o := range u.VC.Obls {
 			if *prop != "" && !propOf(o, *prop) {
+				continue
+			}
+			if o.Deep && !*deep {
 				continue
 			}
 			obls = append(obls, o)
